@@ -545,5 +545,5 @@ func VH_C17_string_values() {
 	vassert("C17.V.reply_is_valid_json", gjson.Valid(body))
 	got := gjson.Get(body, paths[i])
 	vassert("C17.V.json_object_decodes_to_the_resp_value", got.Type == gjson.String && got.String() == val)
-	vobs("strval", i, len(body))
+	vobs("strval", i, got.String() == val) // (the document also carries the elapsed wall-clock text: not observed)
 }
